@@ -332,3 +332,35 @@ Example C07_example_fixed_recovery :
   /\ posted_of_ex (r_out r') = [(1%nat, 3 # 2, EN 0); (1%nat, 5 # 2, EN 1); (1%nat, 7 # 2, EN 2)]
   /\ map (getc (cw_st (world (r_final r)))) [0; 1; 2]%Z = [Some 2; Some 2; Some 2]%Z.
 Proof. cbv zeta. repeat split; vm_compute; reflexivity. Qed.
+
+(* ---- the vaccine gate of SIvR.infect (Model/CompartV.v; co-executed with the implementation by Tie/CompartV.v) *)
+From EpyV Require Import Model.CompartV Proofs.CompartV.
+
+(* a vaccine of efficacy 1 that has taken effect prevents infection, for every value the generator can return *)
+Theorem C07_vaccine_full : forall tbl off0 c eff off iN iV t n m kloci w r rest,
+  (eff == 1)%Q -> effective w off t n = true -> vw_gate w = r :: rest -> (r < 1)%Q ->
+  vhandler tbl off0 (VInfect c eff off iN iV) t (EE n m) kloci w = (pop_gate w, []).
+Proof. exact vaccine_full. Qed.
+
+(* a vaccine of efficacy 0 changes nothing: the node is infected exactly as an unvaccinated one
+   (same compartment change, same occupied-edge mark), for every generator value r > 0 *)
+Theorem C07_vaccine_none : forall tbl off0 c eff off iN iV t n m kloci w,
+  (eff == 0)%Q -> (forall r rest, vw_gate w = r :: rest -> (0 < r)%Q) -> (effective w off t n = true -> vw_gate w <> []) ->
+  let res := fst (vhandler tbl off0 (VInfect c eff off iN iV) t (EE n m) kloci w) in
+  cw_st (vw_base res) = fst (change_compartment tbl (cw_st (vw_base w)) n c) /\
+  cw_occ (vw_base res) = mark_occupied (n, m) t (cw_occ (vw_base w)) /\
+  cw_hit (vw_base res) = cw_hit (vw_base w).
+Proof. exact vaccine_none. Qed.
+
+Theorem C07_vaccine_not_in_effect : forall tbl off0 c eff off iN iV t n m kloci w,
+  effective w off t n = false ->
+  vhandler tbl off0 (VInfect c eff off iN iV) t (EE n m) kloci w = v_infect tbl off0 c iN t n m kloci w.
+Proof. exact vaccine_not_effective. Qed.
+
+Example C07_vaccine_example :
+  let w := {| vw_base := {| cw_st := Loci.setup [EdgeLocus 3 1; NodeLocus 1] [0;1]%Z [(0,1)]%Z [(0,3);(1,1)]%Z; cw_occ := []; cw_hit := [] |};
+              vw_vacc := [(0%Z, 0%Q)]; vw_gate := [(1#2)%Q] |} in
+  effective w (1#4) 1 0%Z = true /\
+  vhandler [EdgeLocus 3 1; NodeLocus 1] 0 (VInfect 1 1 (1#4) 2 3) 1 (EE 0 1) [[EE 0 1]; [EN 1]; []; []] w = (pop_gate w, []) /\
+  getc (cw_st (vw_base (fst (vhandler [EdgeLocus 3 1; NodeLocus 1] 0 (VInfect 1 0 (1#4) 2 3) 1 (EE 0 1) [[EE 0 1]; [EN 1]; []; []] w)))) 0%Z = Some 1%Z.
+Proof. vm_compute. repeat split; reflexivity. Qed.
